@@ -181,7 +181,7 @@ def cases(tier, seed):
             for b in bs:
                 k += 1
                 out.append({"kind": "matrix", "backing": b, "dom": _spec(r, dom, lo, hi, lo2, hi2),
-                            "ran": _spec(r, ran, lo, hi, lo2, hi2), "t_order": ("before", "after")[k % 2]})
+                            "ran": _spec(r, ran, lo, hi, lo2, hi2), "t_order": ("before", "after")[k % 2], "scale": SCALES[(k // 2) % len(SCALES)]})
     for dom in G_2D:
         for ran in G_2D:
             for b in (backings if not quick else [backings[k % 7]]):
@@ -189,7 +189,7 @@ def cases(tier, seed):
                 d = _spec(r, dom, lo, hi, lo2, hi2)
                 rg = _spec(r, ran, lo, hi, lo2, hi2)
                 rg["shape"][1] = d["shape"][1]          # matrix acts on the image columns
-                out.append({"kind": "matrix", "backing": b, "dom": d, "ran": rg, "t_order": ("before", "after")[k % 2]})
+                out.append({"kind": "matrix", "backing": b, "dom": d, "ran": rg, "t_order": ("before", "after")[k % 2], "scale": SCALES[(k // 2) % len(SCALES)]})
     # 1D domain with 2D range and vice versa (the matrix cannot act consistently: refusal probes)
     for dom, ran in (("cont1d", "image_C"), ("image_F", "cont1d"), ("default", "cont2d"), ("image_C", "kl_trunc")):
         out.append({"kind": "matrix", "backing": "dense", "dom": _spec(r, dom, lo, hi, lo2, hi2),
@@ -202,7 +202,8 @@ def cases(tier, seed):
                 for rep in range(1 if quick else 3):
                     k += 1
                     out.append({"kind": "func", "dom": _spec(r, dom, lo, hi, lo2, hi2), "ran": _spec(r, ran, lo, hi, lo2, hi2),
-                                "t_order": t_order, "op": r.choice(["dense", "dense", "symmetric_square", "sparse"]), "rep": rep})
+                                "t_order": t_order, "op": r.choice(["dense", "dense", "symmetric_square", "sparse"]), "rep": rep,
+                                "scale": SCALES[(k // 2) % len(SCALES)]})
     # ---- function-backed models whose callables return views / aliases of their input (selection operators)
     for view in ("identity", "downsample", "window", "reverse"):
         for g in ("default", "cont1d", "cont1d_grid", "discrete", "step_eq", "image_visual"):
@@ -223,7 +224,8 @@ def cases(tier, seed):
                 for rep in range(1 if quick else 3):
                     dim = r.randint(8, 24 if quick else 64)
                     out.append({"kind": "deconv1d", "dim": dim, "psf": psf, "rel": rel, "bc": bc,
-                                "param": round(r.uniform(0.8, 4.0), 2), "legacy": False, "rep": rep})
+                                "param": round(r.uniform(0.8, 4.0), 2), "legacy": False, "rep": rep,
+                                "pscale": r.choice([0, 0, -16, -8, 8]) if psf.startswith("custom") else 0})
     for psf in ["gauss", "sinc", "prolate", "vonmises", "custom_asym", "custom_sym"]:
         for rep in range(1 if quick else 3):
             out.append({"kind": "deconv1d", "dim": 2 * r.randint(4, 12 if quick else 32), "psf": psf, "rel": "none",
@@ -238,7 +240,8 @@ def cases(tier, seed):
                     dim = r.randint(5, 8 if quick else 12)
                     out.append({"kind": "deconv2d", "dim": dim, "psf": psf, "rel": rel, "bc": bc,
                                 "param": round(r.uniform(0.9, 3.0), 2), "rep": rep,
-                                "t_order": ("before", "after")[len(out) % 2]})
+                                "t_order": ("before", "after")[len(out) % 2],
+                                "pscale": r.choice([0, 0, -16, -8, 8]) if psf.startswith("custom") else 0})
     # ---- Abel1D / _Deconv_1D / _Deblur
     fields = ["none", "KL", "KL_trunc", "Step", "Step_eq", "CustomKL", "geom_cont1d", "geom_discrete", "KL_map_scale",
               "KL_map_flip", "KL_map_noimap"]
@@ -266,6 +269,7 @@ def _cfg(case):
         c["t_order"] = case["t_order"]
         if case.get("flat"):
             c["flat"] = True
+        c["scale"] = str(case.get("scale", 0))
     elif kind == "funcview":
         c.update({"backing": "func", "view": case["view"], "dom": case["dom"]["g"], "ran": case["dom"]["g"],
                   "dom_class": G_CLASS[case["dom"]["g"]], "ran_class": G_CLASS[case["dom"]["g"]], "t_order": case["t_order"]})
@@ -339,11 +343,21 @@ def _maxdiff(a, b):
     d = d[np.isfinite(d)]
     return float(d.max()) if d.size else 0.0
 
+def _exact_close(ctx, a, b):
+    """Equal relative to max|.| and relative to every entry (for operands that are exact selections / permutations of each other)."""
+    a, b = np.asarray(a, dtype=float), np.asarray(b, dtype=float)
+    if a.shape != b.shape or not ctx.close(a, b, rtol=RTOL, atol=0.0):
+        return False
+    with np.errstate(invalid="ignore"):
+        bad = (np.abs(a - b) > 1e-9 * np.maximum(np.abs(a), np.abs(b))) & np.isfinite(a) & np.isfinite(b)
+    return not bool(np.any(bad))
+
 class _Judge:
     """All comparisons of one model go through here so that counters say what was compared."""
     def __init__(self, ctx, cfg, label):
         self.ctx, self.cfg, self.label = ctx, cfg, label
         self.must_work = True
+        self.exact = False
 
     def viol(self, mech, detail, extra=None):
         c = dict(self.cfg)
@@ -363,8 +377,22 @@ class _Judge:
         else:
             self.viol("output_shape_mismatch", f"{what}: {why}", {"op": what})
 
+    def same_m(self, a, b, scale):
+        """Matrix against matrix (columns on unit vectors).  Relative to max|A| - and, for models whose arithmetic on unit
+        vectors is exact (matrix / user-operator backed LinearModels), also relative to every single entry, so that small
+        entries of an operator with a large dynamic range cannot be lost inside a tolerance tied to the largest one."""
+        if not self.same(a, b, scale):
+            return False
+        if self.exact:
+            a, b = np.asarray(a, dtype=float), np.asarray(b, dtype=float)
+            with np.errstate(invalid="ignore"):
+                bad = np.abs(a - b) > 1e-9 * np.maximum(np.abs(a), np.abs(b))
+            if np.any(bad & np.isfinite(a) & np.isfinite(b)):
+                return False
+        return True
+
     def same(self, a, b, scale, rtol=RTOL):
-        ok = self.ctx.close(a, b, rtol=rtol, atol=1e-13, scale=max(scale, 1e-300))
+        ok = self.ctx.close(a, b, rtol=rtol, atol=0.0, scale=max(scale, 1e-300))
         if ok and np.shape(a) == np.shape(b) and np.size(a):
             d = _maxdiff(np.asarray(a, dtype=float), np.asarray(b, dtype=float)) / max(scale, 1e-300)
             if d > MAX_REL_PASSED[0]:
@@ -404,10 +432,11 @@ def make_doc(model, apply_M, apply_MT, raw=None):
     return {"forward": lambda e: rg.fun2par(apply_M(dg.par2fun(e))), "adjoint": lambda e: dg.fun2par(apply_MT(rg.par2fun(e))), "raw": raw}
 
 def examine(model, ctx, cfg, rs, label="model", must_work=True, t_order="after", rec=None, nvec=3, depth=0, expect_dims=None,
-            doc=None, classify_adjoint=None):
+            doc=None, classify_adjoint=None, exact=False):
     """Observe one LinearModel completely. Returns dict with A_f, A_a, G (dense or None)."""
     J = _Judge(ctx, cfg, label)
     J.must_work = must_work
+    J.exact = exact
     forms = {}
     def adj_form():
         if "adj" not in forms:
@@ -463,7 +492,7 @@ def examine(model, ctx, cfg, rs, label="model", must_work=True, t_order="after",
     sc = _scale(Af, Aa)
     if Af is not None and Aa is not None:
         ctx.count("adjoint_entries_compared", Af.size)
-        if not J.same(Aa, Af.T, sc):
+        if not J.same_m(Aa, Af.T, sc):
             res["adj_ok"] = False
             i, j = np.unravel_index(np.nanargmax(np.abs(Aa - Af.T)), Aa.shape)
             J.viol("adjoint_mismatch", f"dims {m}x{n}: max |A* - A^T| = {_maxdiff(Aa, Af.T):.3g} (scale {sc:.3g}); "
@@ -532,15 +561,15 @@ def examine(model, ctx, cfg, rs, label="model", must_work=True, t_order="after",
             J.viol("matrix_mismatch", f"get_matrix().shape = {G.shape} but (range_dim, domain_dim) = {(m, n)}", {"what": "shape", "form": mform})
         elif Af is not None:
             ctx.count("matrix_columns_compared", n)
-            if not J.same(G, Af, sc):
+            if not J.same_m(G, Af, sc):
                 res["G_ok"] = False
-                bad = [i for i in range(n) if not J.same(G[:, i], Af[:, i], sc)]
+                bad = [i for i in range(n) if not J.same_m(G[:, i], Af[:, i], sc)]
                 J.viol("matrix_mismatch", f"get_matrix()[:, i] != forward(e_i) for {len(bad)}/{n} columns (first i={bad[0]}: "
                                          f"{np.round(G[:, bad[0]], 6).tolist()[:6]} vs {np.round(Af[:, bad[0]], 6).tolist()[:6]})", {"what": "values", "form": mform})
             # a second request must give the same matrix (cache)
             k2, G2 = core.outcome(lambda: _dense(model.get_matrix()))
             ctx.count("matrix_cache_compared")
-            if k2 != "value" or G2.shape != G.shape or not J.same(G2, G, sc):
+            if k2 != "value" or G2.shape != G.shape or not J.same_m(G2, G, sc):
                 J.viol("matrix_mismatch", "second get_matrix() differs from the first", {"what": "cache"})
             # forward after the matrix has been cached still is the same map
             x = rs.standard_normal(n)
@@ -566,12 +595,13 @@ def examine(model, ctx, cfg, rs, label="model", must_work=True, t_order="after",
     else:
         Ts.append(("T(after matrix)", T_after))
     for tlabel, T in Ts:
-        _examine_transpose(model, T, ctx, cfg, rs, f"{label}.{tlabel}", must_work, rec, res, n, m, sc)
+        _examine_transpose(model, T, ctx, cfg, rs, f"{label}.{tlabel}", must_work, rec, res, n, m, sc, exact)
     return res
 
-def _examine_transpose(model, T, ctx, cfg, rs, label, must_work, rec, res, n, m, sc):
+def _examine_transpose(model, T, ctx, cfg, rs, label, must_work, rec, res, n, m, sc, exact=False):
     J = _Judge(ctx, cfg, label)
     J.must_work = must_work
+    J.exact = exact
     Af, Aa, G = res["Af"], res["Aa"], res["G"]
     tf = {}
     def tviol(detail, extra):
@@ -628,7 +658,7 @@ def _examine_transpose(model, T, ctx, cfg, rs, label, must_work, rec, res, n, m,
             ctx.count("transpose_without_reference")
             continue
         ctx.count("transpose_applications_compared", O.mat.shape[1])
-        if not J.same(O.mat, ref, sc):
+        if not J.same_m(O.mat, ref, sc):
             tviol(f"{what}(e_i) != model.{refname}(e_i): max diff {_maxdiff(O.mat, ref):.3g} (scale {sc:.3g})", {"what": what})
     for _ in range(2):
         y = rs.standard_normal(m)
@@ -661,7 +691,7 @@ def _examine_transpose(model, T, ctx, cfg, rs, label, must_work, rec, res, n, m,
             cands.append(("the columns T.forward(e_j)", TF.mat))
         if not consistent:
             cands += [(nm, C) for nm, C in (("forward columns^T", None if Af is None else Af.T), ("adjoint columns", Aa)) if C is not None]
-        ok = [name for name, C in cands if TG.shape == C.shape and J.same(TG, C, sc)]
+        ok = [name for name, C in cands if TG.shape == C.shape and J.same_m(TG, C, sc)]
         if cands:
             ctx.count("transpose_matrix_compared")
             if (consistent and len(ok) < len(cands)) or (not consistent and not ok):
@@ -684,7 +714,7 @@ def _examine_transpose(model, T, ctx, cfg, rs, label, must_work, rec, res, n, m,
             J.outcome_problem(what, O.status, O.why)
         elif ref is not None:
             ctx.count("double_transpose_compared", O.mat.shape[1])
-            if not J.same(O.mat, ref, sc):
+            if not J.same_m(O.mat, ref, sc):
                 tviol(f"{what} != model counterpart: max diff {_maxdiff(O.mat, ref):.3g}", {"what": what})
     kG, TTG = core.outcome(lambda: _dense(TT.get_matrix()))
     if kG == "value":
@@ -695,7 +725,7 @@ def _examine_transpose(model, T, ctx, cfg, rs, label, must_work, rec, res, n, m,
             cands.append(("the columns T.T.forward(e_i)", TTF.mat))
         if not consistent:
             cands += [(nm, C) for nm, C in (("forward columns", Af), ("adjoint columns^T", None if Aa is None else Aa.T)) if C is not None]
-        ok = [name for name, C in cands if TTG.shape == C.shape and J.same(TTG, C, sc)]
+        ok = [name for name, C in cands if TTG.shape == C.shape and J.same_m(TTG, C, sc)]
         if cands:
             ctx.count("double_transpose_compared")
             if (consistent and len(ok) < len(cands)) or (not consistent and not ok):
@@ -823,6 +853,18 @@ def run_case(case, ctx):
     finally:
         ctx.note("max_rel_diff_among_passed_comparisons", MAX_REL_PASSED[0])
 
+SCALES = [0, -20, 0, -16, 8, 0, -12, "mixed", 0, -8, 16, "mixed_tiny"]     # powers of ten applied to the operator (0 = O(1) entries)
+
+def _apply_scale(M, scale, rs):
+    """Operators in extreme-but-legal units: overall factor 10^k, or a dynamic range of 18 decades inside one matrix."""
+    if scale in (0, None):
+        return M
+    if scale == "mixed":
+        return M * 10.0 ** rs.uniform(-18, 0, size=M.shape)
+    if scale == "mixed_tiny":
+        return M * 10.0 ** rs.uniform(-30, -12, size=M.shape)
+    return M * 10.0 ** int(scale)
+
 def _rand_matrix(rs, m, n, kind="dense"):
     M = rs.standard_normal((m, n))
     if kind == "sparse":
@@ -845,6 +887,10 @@ def _run_matrix(case, ctx, cfg, rs):
     if case["backing"] == "dense_int":
         M = np.round(3 * M)
         M[M == 0] = 1.0
+        if isinstance(case.get("scale"), int) and case["scale"] > 0:
+            M = M * 10.0 ** min(case["scale"], 8)
+    else:
+        M = _apply_scale(M, case.get("scale"), rs)
     A = {"dense": lambda: M.copy(), "csc": lambda: sp.csc_matrix(M), "csr": lambda: sp.csr_matrix(M), "coo": lambda: sp.coo_matrix(M),
          "lil": lambda: sp.lil_matrix(M), "dense_F": lambda: np.asfortranarray(M), "dense_int": lambda: M.astype(int)}[case["backing"]]()
     kb, built = core.outcome(lambda: cuqi.model.LinearModel(A, range_geometry=_build_geom(rspec, True), domain_geometry=_build_geom(dspec, True)))
@@ -854,7 +900,7 @@ def _run_matrix(case, ctx, cfg, rs):
     ctx.count("models_built")
     must = _must_work(cfg) and (not two_d)     # a matrix acting on image columns is the library's own convention: judged, but refusals are accepted
     r0 = examine(built, ctx, cfg, rs, label="matrix-backed", must_work=must, t_order=case["t_order"],
-            expect_dims=(_par_dim(dspec), _par_dim(rspec)),
+            expect_dims=(_par_dim(dspec), _par_dim(rspec)), exact=True,
             doc=make_doc(built, lambda f: A @ f, lambda f: A.T @ f, raw=_dense(A)))
     if must:
         wrapped_inputs(built, ctx, cfg, rs, r0, dspec, rspec, "matrix-backed")
@@ -874,6 +920,7 @@ def _run_func(case, ctx, cfg, rs):
         M = B + B.T
     else:
         M = _rand_matrix(rs, nr, nd, "sparse" if op == "sparse" else "dense")
+    M = _apply_scale(M, case.get("scale"), rs)
     rec = _Recorder()
     fwd, adj = _make_pair(M, dshape, rshape, rec)
     kb, model = core.outcome(lambda: cuqi.model.LinearModel(fwd, adj, range_geometry=_build_geom(rspec), domain_geometry=_build_geom(dspec)))
@@ -883,7 +930,7 @@ def _run_func(case, ctx, cfg, rs):
     ctx.count("models_built")
     # a sibling model with another operator and the same dimensions, observed in the same process: a matrix cached
     # anywhere but on the instance would leak from one into the other
-    M2 = _rand_matrix(rs, nr, nd)
+    M2 = _apply_scale(_rand_matrix(rs, nr, nd), case.get("scale"), rs)
     rec2 = _Recorder()
     f2, a2 = _make_pair(M2, dshape, rshape, rec2)
     sib = cuqi.model.LinearModel(f2, a2, range_geometry=_build_geom(rspec), domain_geometry=_build_geom(dspec))
@@ -891,20 +938,20 @@ def _run_func(case, ctx, cfg, rs):
     uf, ua = _make_pair(M, dshape, rshape, _Recorder())
     uf2, ua2 = _make_pair(M2, dshape, rshape, _Recorder())
     r1 = examine(model, ctx, cfg, rs, label="function-backed", must_work=must, t_order=case["t_order"], rec=rec,
-                 expect_dims=(_par_dim(dspec), _par_dim(rspec)), doc=make_doc(model, uf, ua))
+                 expect_dims=(_par_dim(dspec), _par_dim(rspec)), doc=make_doc(model, uf, ua), exact=True)
     r2 = examine(sib, ctx, cfg, rs, label="function-backed sibling", must_work=must, t_order="after", rec=rec2, nvec=1, depth=1,
-                 doc=make_doc(sib, uf2, ua2))
+                 doc=make_doc(sib, uf2, ua2), exact=True)
     # for identity-like and reshaping geometries the parameter-space matrix is known exactly from the user operator
     if must and r1["Af"] is not None:
         ref = L.param_matrix(M, dspec, rspec)
         ctx.count("forward_vs_user_operator_compared", ref.shape[1])
-        if r1["Af"].shape != ref.shape or not ctx.close(r1["Af"], ref, rtol=RTOL, atol=1e-13):
+        if r1["Af"].shape != ref.shape or not _exact_close(ctx, r1["Af"], ref):
             ctx.violation("forward_geometry_mismatch", cfg, detail=f"forward(e_i) is not the user operator conjugated with the documented "
                           f"vector<->image reshaping (order of Image2D): max diff {_maxdiff(r1['Af'], ref) if r1['Af'].shape == ref.shape else 'shape'}")
     if must and r1["Aa"] is not None:
         ref = L.param_matrix(M, dspec, rspec).T
         ctx.count("adjoint_vs_user_operator_compared", ref.shape[1])
-        if r1["Aa"].shape != ref.shape or not ctx.close(r1["Aa"], ref, rtol=RTOL, atol=1e-13):
+        if r1["Aa"].shape != ref.shape or not _exact_close(ctx, r1["Aa"], ref):
             ctx.violation("adjoint_geometry_mismatch", cfg, detail="adjoint(e_j) is not the transpose of the user operator conjugated with the documented reshaping")
     # the matrix representation after the model was given another domain geometry (public attribute, re-assigned in the
     # library's own tests): must still reproduce forward column by column
@@ -916,7 +963,7 @@ def _run_func(case, ctx, cfg, rs):
         kG, G2 = core.outcome(lambda: _dense(model.get_matrix()))
         if F2.status == "value" and kG == "value":
             ctx.count("matrix_after_regeometry_compared", F2.mat.shape[1])
-            if G2.shape != F2.mat.shape or not ctx.close(G2, F2.mat, rtol=RTOL, atol=1e-13):
+            if G2.shape != F2.mat.shape or not _exact_close(ctx, G2, F2.mat):
                 ctx.violation("matrix_mismatch", {**cfg, "what": "stale_after_geometry_change"},
                               detail=f"after model.domain_geometry = Image2D(order={other!r}) forward(e_i) changed but get_matrix() still returns the matrix "
                                      f"cached under the previous geometry (max diff {_maxdiff(G2, F2.mat):.3g})")
@@ -972,12 +1019,12 @@ def _run_funcview(case, ctx, cfg, rs):
         return
     ctx.count("models_built")
     r1 = examine(model, ctx, cfg, rs, label="view-returning callables", must_work=True, t_order=case["t_order"], nvec=2,
-                 expect_dims=(_par_dim(dspec), _par_dim(rspec)))
+                 expect_dims=(_par_dim(dspec), _par_dim(rspec)), exact=True)
     ref = L.param_matrix(M, dspec, rspec)
     for nm, got, want in (("forward", r1["Af"], ref), ("adjoint", r1["Aa"], ref.T), ("get_matrix", r1["G"], ref)):
         if got is not None:
             ctx.count("forward_vs_user_operator_compared", want.shape[1])
-            if got.shape != want.shape or not ctx.close(got, want, rtol=RTOL, atol=1e-13):
+            if got.shape != want.shape or not _exact_close(ctx, got, want):
                 ctx.violation("forward_geometry_mismatch" if nm != "get_matrix" else "matrix_mismatch", {**cfg, "what": "selection_" + nm},
                               detail=f"{nm} of the selection operator '{view}' is not the selection matrix (nonzeros {int(np.count_nonzero(got))} vs {int(np.count_nonzero(want))})")
 
@@ -1008,6 +1055,7 @@ def _run_deconv1d(case, ctx, cfg, rs):
         P = rs.uniform(0.1, 1.0, n)
         if psf == "custom_sym":
             P = P + P[::-1]
+        P = P * 10.0 ** case.get("pscale", 0)
         kw["PSF"] = P
     else:
         kw["PSF"] = psf
@@ -1034,7 +1082,7 @@ def _run_deconv1d(case, ctx, cfg, rs):
             mode = {"zero": "constant", "periodic": "wrap", "mirror": "mirror", "reflect": "reflect", "nearest": "nearest"}[bc.lower()]
             ref = np.column_stack([convolve1d(e, Pk, mode=mode) for e in np.eye(dim)])
             ctx.count("conv1d_columns_compared", dim)
-            if not ctx.close(res["Af"], ref, rtol=RTOL, atol=1e-13):
+            if not ctx.close(res["Af"], ref, rtol=RTOL, atol=0.0):
                 ctx.violation("conv1d_matrix_mismatch", cfg, detail=f"dim={dim} PSF size {len(Pk)}: forward(e_i) is not convolve1d(e_i, PSF, mode={mode}); "
                               f"max diff {_maxdiff(res['Af'], ref):.3g}; equals the transposed convolution: {bool(np.allclose(res['Af'], ref.T))}")
 
@@ -1062,7 +1110,7 @@ def _run_deconv2d(case, ctx, cfg, rs):
         size = 2 * rs.randint(dim // 2 + 1, dim + 1)
     kw = dict(dim=dim, BC=bc, phantom=rs.uniform(size=(dim, dim)))
     if psf.startswith("custom"):
-        kw["PSF"] = _custom_psf2(psf, size, rs)
+        kw["PSF"] = _custom_psf2(psf, size, rs) * 10.0 ** case.get("pscale", 0)
     else:
         kw.update(PSF=psf, PSF_size=size, PSF_param=case["param"])
     kb, tp = core.outcome(lambda: cuqi.testproblem.Deconvolution2D(**kw))
@@ -1075,7 +1123,8 @@ def _run_deconv2d(case, ctx, cfg, rs):
         return
     ctx.count("models_built")
     pad = size // 2
-    sym = "axis" if (np.allclose(P, P[::-1, :]) and np.allclose(P, P[:, ::-1])) else ("centro" if np.allclose(P, P[::-1, ::-1]) else "none")
+    Pn = P / np.abs(P).max()
+    sym = "axis" if (np.allclose(Pn, Pn[::-1, :]) and np.allclose(Pn, Pn[:, ::-1])) else ("centro" if np.allclose(Pn, Pn[::-1, ::-1]) else "none")
     cfg = {**cfg, "psf_parity": "even" if size % 2 == 0 else "odd", "psf_sym": sym, "pad": "0" if pad == 0 else ("1" if pad == 1 else "2+")}
     ctx.note("psf_size", size)
     def classify(F, A):
